@@ -117,6 +117,9 @@ def table_invariant(c, pre_kernel_keys=None):
             bad.append('an IKE_SA in state DELETED is still listed')
         if e.state == S.INITIAL and not e.is_initiator:
             bad.append('a responder IKE_SA that never left INITIAL is still listed (it can never be reached again)')
+        if e.state == S.INITIAL and e.is_initiator:
+            bad.append('an initiator IKE_SA that never sent its first request is listed (a successor prepared for a rekey that was refused: no peer knows it, '
+                       'nothing will ever remove it)')
         if e.state in (S.REKEYED, S.DEL_AFTER_REKEY_IKE_SA_REQ_SENT) and e.new_ike_sa not in t and e.new_ike_sa.state != S.DELETED:
             bad.append('the IKE_SA created by rekey is not listed')
     # kernel SAs == CHILD_SAs of the listed IKE_SAs
